@@ -125,6 +125,9 @@ def direct(tier, seed, agg):
     yield from _sweep("L2.strings.S1", "c18.L2.strings", [["lexsweep", "strings", S1, 5 if quick else 6, i, n] for i in range(n)], agg)
     yield from _sweep("L2.strings.S2", "c18.L2.strings", [["lexsweep", "strings", S2, 5 if quick else 7, i, n] for i in range(n)], agg)
     yield from _sweep("L2.strbody", "c18.L2.strbody", [["lexsweep", "strings", S3, 6 if quick else 7, i, n, r"x\s\q", r"\q\sy"] for i in range(n)], agg)
+    # a string literal INSIDE the braces of another string literal (also spanning lines): every body over {", a, LF, SP, +, z}
+    yield from _sweep("L2.nested", "c18.L2.nested", [["lexsweep", "strings", r"\q,a,\n,\s,+,z", 5 if quick else 7, i, n, r"x\s\qp{", r"}q\q\sy"] for i in range(n)], agg)
+    yield from _sweep("L2.nested-after-break", "c18.L2.nested", [["lexsweep", "strings", r"\q,a,\n,\s,+", 4 if quick else 6, i, n, r"\qp\n{", r"}\q\sy"] for i in range(n)], agg)
     yield from _sweep("L3.layouts", "c18.L3.layouts", [["lexsweep", "layouts", 3 if quick else 4, i, n] for i in range(n)], agg)
     # L5 automaton
     cap, depth = (16, 5) if quick else (40, 6)
